@@ -13,4 +13,5 @@ define(globals(), "dart_tables", "tool", F, "verif_dart_tables", "dart_tables.rs
        ["dart:ffi meaning table written from the dart:ffi API docs", "RandomState::new stubbed; TypeContext::__verif_empty hook"],
        {"C07": ["parameter order/arity in gen_method_info", "struct field order, result/option/slice record shapes (template text)"], "C15": []},
        kani_args=["-Z", "stubbing"],
-       extra_appends=[("core/src/hir/type_context.rs", "core_hooks.rs"), ("tool/src/lib.rs", "tool_common.rs")])
+       extra_appends=[("core/src/hir/type_context.rs", "core_hooks.rs"), ("tool/src/lib.rs", "tool_common.rs")],
+       quick_elsewhere={"C15": "C07"})
